@@ -38,7 +38,15 @@ let sexp_of_res = function
   | RSym (s, f) -> L [A "sym"; A (atom_of_name s.s_name); A (string_of_z s.s_index); A (scope_atom s.s_scope);
                       A (if s.s_const then "1" else "0"); A (if f then "1" else "0")]
 
+let run_loads (args : Sexp.t list) : Sexp.t =
+  match args with
+  | [L (A "loads" :: ps); A n] ->
+    let ps = List.map (function L [A c; A m] -> (z_of_string c, z_of_string m) | _ -> failwith "pair") ps in
+    L [A "b"; A (if loads_ok ps (z_of_string n) then "1" else "0")]
+  | _ -> failwith "loadsok"
+
 let run (kind : string) (args : Sexp.t list) : Sexp.t =
+  if kind = "loadsok" then run_loads args else
   let ops = List.map op_of_sexp args in
   let (_, rs) = run_ops new_symbol_table ops in
   L (List.map sexp_of_res rs)
